@@ -13,7 +13,7 @@ Fail closed: every extractor checks the exact syntactic shape it knows.
 import ast
 import sys
 
-from harness.translate import Src, HEADER, attr_path, clist, const_int, const_str, cstr, enum_members
+from harness.translate import Src, HEADER, attr_path, calls_in, clist, const_int, const_str, cstr, enum_members
 
 STATUS_MEMBERS = ["FINISHED", "CANCELED", "MISSING"]
 PREDICATES = ["is_canceled", "is_failed", "is_successful"]
@@ -244,6 +244,18 @@ def gen_reports():
     if ast.unparse(top["results"]) != "serialize_results(self._results)":
         js.fail("_build_results: results is not serialize_results(self._results)", ret[0])
     summary = [(const_str(js, k), ast.unparse(v)) for k, v in zip(top["summary"].keys, top["summary"].values)]
+    # local counter names are not part of the report: a counter is known by the summary key it is stored under
+    var_key = {v: k for k, v in summary if v.isidentifier()}
+    if len(var_key) != len([1 for _, v in summary if v.isidentifier()]):
+        js.fail("_build_results: one counter stored under two summary keys", ret[0])
+
+    def _by_key(chain, els, src_):
+        for _, lab in chain + ([els] if els else []):
+            if lab not in var_key:
+                src_.fail(f"_build_results: counter {lab} is not stored in the summary", fb)
+        return [(p, var_key[l]) for p, l in chain], (None if els is None else (els[0], var_key[els[1]]))
+    b_chain, b_else = _by_key(b_chain, b_else, js)
+    summary = [(k, k if v.isidentifier() else v) for k, v in summary]
     # write_results_summary stores the summary + missing jobs + rows
     fw = js.func("write_results_summary", "JobSubmitter")
     txt = ast.unparse(fw).replace('"', "'")
@@ -269,9 +281,28 @@ def gen_reports():
     if len(gret) != 1 or not isinstance(gret[0].value, ast.Dict):
         rs.fail("get_results_by_type: expected one `return {...}`", fg)
     g_keys = [(const_str(rs, k), ast.unparse(v)) for k, v in zip(gret[0].value.keys, gret[0].value.values)]
+    g_var_key = {v: k for k, v in g_keys}
+    for _, lab in g_chain + ([g_else] if g_else else []):
+        if lab not in g_var_key:
+            rs.fail(f"get_results_by_type: list {lab} is not returned", fg)
+    g_chain = [(p, g_var_key[l]) for p, l in g_chain]
+    g_else = None if g_else is None else (g_else[0], g_var_key[g_else[1]])
+    g_keys = [(k, k) for k, _ in g_keys]
     fsr = rs.func("show_results", "ResultsSummary")
     _, if2 = _first_if_in_for(rs, fsr, ("self._results['results'].values()",), "result")
     s_chain, s_else = _chain(rs, if2, "result", _incr(rs))
+    # a counter of show_results is known by the label it is printed under: print(f"...Num successful: {num_successful}")
+    s_var_label = {}
+    for c in calls_in(fsr, "print"):
+        if len(c.args) == 1 and isinstance(c.args[0], ast.JoinedStr) and len(c.args[0].values) == 2 \
+                and isinstance(c.args[0].values[0], ast.Constant) and isinstance(c.args[0].values[1], ast.FormattedValue) \
+                and isinstance(c.args[0].values[1].value, ast.Name):
+            s_var_label[c.args[0].values[1].value.id] = c.args[0].values[0].value.strip().rstrip(":")
+    for _, lab in s_chain + ([s_else] if s_else else []):
+        if lab not in s_var_label:
+            rs.fail(f"show_results: counter {lab} is not printed", fsr)
+    s_chain = [(p, s_var_label[l]) for p, l in s_chain]
+    s_else = None if s_else is None else (s_else[0], s_var_label[s_else[1]])
 
     shapes = _writer_shapes()
     ev = Src("jade/events.py")
